@@ -34,6 +34,10 @@ func WaitRecv(ch interface{}) {
 	}
 	v := reflect.ValueOf(ch)
 	p := v.Pointer()
+	if p != 0 && v.Cap() == 0 && !isClosed(p) {
+		Unsupported = "receive on unbuffered channel"
+		panic("zzsim: unbuffered channel not supported")
+	}
 	for v.Len() == 0 && !isClosed(p) {
 		Blocked()
 	}
@@ -86,3 +90,38 @@ const (
 	ProbePoolMiss = 0
 	ProbePoolDrop = 1
 )
+
+// WaitSelect yields until at least one case of a select statement without a
+// default clause can proceed: a receive on a non-empty or closed channel, or a
+// send on a channel with free buffer space.
+func WaitSelect(chans []interface{}, send []bool) {
+	if !Active() {
+		return
+	}
+	for {
+		for i, ch := range chans {
+			v := reflect.ValueOf(ch)
+			if v.Kind() != reflect.Chan || v.IsNil() {
+				continue
+			}
+			if v.Cap() == 0 && !isClosed(v.Pointer()) {
+				Unsupported = "select on unbuffered channel"
+				panic("zzsim: unbuffered channel not supported")
+			}
+			if send[i] {
+				if v.Cap() > 0 && v.Len() < v.Cap() {
+					Progress()
+					return
+				}
+				if isClosed(v.Pointer()) { // would panic, as the real send does
+					Progress()
+					return
+				}
+			} else if v.Len() > 0 || isClosed(v.Pointer()) {
+				Progress()
+				return
+			}
+		}
+		Blocked()
+	}
+}
